@@ -250,7 +250,7 @@ def rule_site(ctx, E):
     ctx.rule('R4', 'Dataset.reindex_axis / reduce_axis freshness correlation', 2)
     SELF = P_('self')
     fi = ctx.fn(DATASET + '.reindex_axis')
-    ev = run(ctx, fi, mode='join')
+    ev = run(ctx, fi, mode='join', values_as_items=True)
     ok = True
     nput = 0
     for p in ret_paths(ev):
